@@ -305,6 +305,9 @@ theorem exec_toCounter (v : Rv) (hv : RvOK v) (vars : List (LoopVar × Val)) (ht
   rw [hput]
   exact (h.setStack (loopsOnly_cons _ _ h.loops.cons.2) (h.evok.retop _)).setPc _
 
+theorem _root_.Bardolph.VmSteps.CodeAt.cast {img : Image} {p p' : Nat} {c : List Instr} (h : CodeAt img p c)
+    (e : p = p') : CodeAt img p' c := e ▸ h
+
 /-! ## hidden loop variables: the records of `Proofs/Loops.lean` -/
 
 theorem getVar_eq : @getVar = @Loops.getLV := rfl
